@@ -2691,6 +2691,7 @@ class Array:
                     project_masks.append(i)
                     project_axes.append(a)
                     if i.dtype != np.bool_:  # should be integer indexing
+                        i = np.where(i < 0, i + self.shape[a], i)  # negative indices count from the end
                         perm = np.argsort(i)  # check if `i` is sorted
                         if np.any(perm != np.arange(len(perm))):
                             # np.argsort(i) gives the reverse permutation, so reverse it again.
